@@ -65,6 +65,13 @@ KERNELS = [
          rules=[(r"this->num_subsets", "num_subsets", 1),
                 (r"std::stringstream str\(warning_message\);.*?warning_message = str\.str\(\);", "K_RECORD_WITNESS(subset_num);", 1),
                 (r"\btrue\b", "1", 1), (r"\bfalse\b", "0", 1)]),
+    dict(name="K_ir_reconstruct_loop", file="src/recon_buildblock/IterativeReconstruction.cxx", cxx_name="IterativeReconstruction<TargetT>::reconstruct: the sub-iteration loop (statement kernel)",
+         func=r"IterativeReconstruction<TargetT>::reconstruct\(shared_ptr<TargetT> const& target_data_sptr\)",
+         span=(r"for \(subiteration_num = start_subiteration_num;", r"this->end_of_iteration_processing\(\*target_data_sptr\);\s*\}"),
+         c_header="void K_ir_reconstruct_loop(struct IRL* self)", loops=1,
+         rules=[(r"(?<![\w>.])(subiteration_num|start_subiteration_num|num_subiterations)\b", r"self->\1", (4, 6)), (r"this->terminate_iterations", "self->terminate_iterations", 1),
+                (r"== false", "== 0", 1), (r"this->update_estimate\(\*target_data_sptr\);", "K_call_update_estimate(self);", 1),
+                (r"this->end_of_iteration_processing\(\*target_data_sptr\);", "K_call_end_of_iteration_processing(self);", 1)]),
     dict(name="K_get_subset_num", file="src/recon_buildblock/IterativeReconstruction.cxx",
          cxx_name="IterativeReconstruction<TargetT>::get_subset_num",
          func=r"IterativeReconstruction<TargetT>::get_subset_num\(\)", c_header="int K_get_subset_num(struct IR* self)", loops=0,
@@ -76,6 +83,30 @@ KERNELS = [
 ]
 
 CHK = ["--signed-overflow-check", "--div-by-zero-check", "--bounds-check", "--pointer-check"]
+STATIC_FACTS = []
+
+
+def extra_gen(repo, gen_dir, metas):
+    """Supporting static fact (syntactic scan, not a proof obligation): the two update_estimate bodies take the subset from
+    get_subset_num() once and hand exactly that value to every call that has a subset argument."""
+    import re
+    from vlib import extract
+    del STATIC_FACTS[:]
+    for rel, cls in (("src/iterative/OSMAPOSL/OSMAPOSLReconstruction.cxx", "OSMAPOSLReconstruction"), ("src/iterative/OSSPS/OSSPSReconstruction.cxx", "OSSPSReconstruction")):
+        src = extract.strip_comments(open(os.path.join(repo, rel)).read())
+        start, bo, bc = extract.find_function(src, r"%s<TargetT>::update_estimate\(TargetT& current_image_estimate\)" % cls)
+        body = src[bo:bc]
+        if len(re.findall(r"const int subset_num = this->get_subset_num\(\);", body)) != 1 or len(re.findall(r"get_subset_num\(\)", body)) != 1:
+            raise extract.ExtractionError("%s::update_estimate: 'const int subset_num = this->get_subset_num();' not found exactly once" % cls)
+        calls = re.findall(r"(compute_sub_gradient\w*|get_subset_sensitivity|add_multiplication_with_approximate_sub_Hessian\w*)\(([^;]*)\);", body)
+        for fn, args in calls:
+            last = args.split(",")[-1].strip()
+            if last != "subset_num":
+                raise extract.ExtractionError("%s::update_estimate: %s(...) is not called with subset_num as its subset argument (%s)" % (cls, fn, last))
+        if not calls:
+            raise extract.ExtractionError("%s::update_estimate: no call with a subset argument found" % cls)
+        STATIC_FACTS.append("%s::update_estimate: subset_num = get_subset_num() once; %d calls with a subset argument, all pass subset_num (syntactic scan)" % (cls, len(calls)))
+    metas.append({"kernel": "static facts", "file": "src/iterative/*/…Reconstruction.cxx", "function": "update_estimate", "facts": list(STATIC_FACTS)})
 
 
 def jobs(tier, gen_dir):
@@ -103,6 +134,10 @@ def jobs(tier, gen_dir):
         out.append(Job("c06/lemma_schedule/S=%d" % S, HARNESS, "h_lemma_schedule", kind="lemma", kernels=["K_get_subset_num"], flags=CHK,
                        no_base_flags=True, min_obligations=1, timeout=TO, object_bits=10, replace=["K_get_subset_num"],
                        defines={"C06_S": S}, params={"num_subsets": S}, backend="kissat"))
+    enforce("K_ir_reconstruct_loop", lc=True)
+    out.append(Job("c06/canary/K_ir_reconstruct_loop", HARNESS, "h_K_ir_reconstruct_loop", enforce="K_ir_reconstruct_loop", kernels=["K_ir_reconstruct_loop"], kind="canary",
+                   defines={"CANARY_K_ir_reconstruct_loop": None}, loop_contracts=True, expect_fail=r"K_ir_reconstruct_loop\.postcondition", no_base_flags=True, timeout=300,
+                   object_bits=10, backend="kissat"))
     for lem in ("idempotent", "complete", "related_count", "subset_unique"):
         out.append(Job("c06/lemma_" + lem, HARNESS, "h_lemma_" + lem, kind="lemma", kernels=[], flags=CHK, no_base_flags=True,
                        min_obligations=1, timeout=300, object_bits=10, backend="kissat"))
@@ -126,7 +161,7 @@ TRUSTED = [
 ]
 ASSUMPTIONS = ["domain: num_views <= 4096, |segment| <= 100000, num_subsets <= 4096"]
 UNDECIDED_CLAUSES = ["that the per-subset total is the SUM of the contributions proved for each pair (additive accumulation read from the single '+=' statement)",
-                     "the reconstruction driver passes get_subset_num()'s value to the objective function on every path",
+                     "that every update_estimate implementation passes get_subset_num()'s value to the objective function (OSMAPOSL/OSSPS bodies)",
                      "TrivialDataSymmetriesForBins / other symmetry classes"]
 
 
